@@ -13,6 +13,7 @@ import (
 	"math/bits"
 	"sort"
 	"strings"
+	"sync"
 
 	"golang.org/x/tools/go/ssa"
 )
@@ -40,7 +41,7 @@ type atomInfo struct {
 // mono is a monomial: sorted atom ids (with repetition for powers), encoded as a string key.
 type FEPoly struct {
 	q     uint64
-	terms map[string]uint64 // monomial key -> coefficient in [1,q)
+	terms map[uint32]uint64 // interned monomial -> coefficient in [1,q)
 }
 
 type FE struct {
@@ -72,7 +73,7 @@ type feState struct {
 	rr        map[uint64]uint64 // 2^64 mod q
 	nttMat    map[string][][]uint64
 	streams   map[string]int
-	monoVars  map[string]*Term
+	monoVars  map[uint32]*Term
 	decompIDs map[string]int
 }
 
@@ -80,7 +81,7 @@ type streamState struct{ pos int }
 
 func (x *Exec) feS() *feState {
 	if x.fe == nil {
-		x.fe = &feState{byName: map[string]*atomInfo{}, rinv: map[uint64]uint64{}, rr: map[uint64]uint64{}, nttMat: map[string][][]uint64{}, streams: map[string]int{}, monoVars: map[string]*Term{}, decompIDs: map[string]int{}}
+		x.fe = &feState{byName: map[string]*atomInfo{}, rinv: map[uint64]uint64{}, rr: map[uint64]uint64{}, nttMat: map[string][][]uint64{}, streams: map[string]int{}, monoVars: map[uint32]*Term{}, decompIDs: map[string]int{}}
 	}
 	return x.fe
 }
@@ -138,12 +139,41 @@ func monoIDs(k string) []int {
 	if k == "" {
 		return nil
 	}
-	parts := strings.Split(k, ",")
-	ids := make([]int, len(parts))
-	for i, p := range parts {
-		fmt.Sscanf(p, "%d", &ids[i])
+	ids := make([]int, 0, 4)
+	v := 0
+	for i := 0; i < len(k); i++ {
+		if k[i] == ',' {
+			ids = append(ids, v)
+			v = 0
+		} else {
+			v = v*10 + int(k[i]-'0')
+		}
 	}
-	return ids
+	return append(ids, v)
+}
+
+// addScaled adds c*o to p in place.
+func (p *FEPoly) addScaled(o *FEPoly, c uint64) {
+	c %= p.q
+	if c == 0 {
+		return
+	}
+	for k, v := range o.terms {
+		p.addTerm(k, mulmod(v, c, p.q))
+	}
+}
+
+// hash is an order-independent fingerprint of the polynomial (used to name derived quantities by content).
+func (p *FEPoly) hash() uint64 {
+	var h uint64
+	for k, c := range p.terms {
+		x := (uint64(k)+1)*0x9E3779B97F4A7C15 ^ c*0xC2B2AE3D27D4EB4F
+		x ^= x >> 29
+		x *= 0xBF58476D1CE4E5B9
+		x ^= x >> 32
+		h += x
+	}
+	return h ^ p.q
 }
 
 func monoMul(a, b string) string {
@@ -156,9 +186,65 @@ func monoMul(a, b string) string {
 	return monoKey(append(monoIDs(a), monoIDs(b)...))
 }
 
-func newFEPoly(q uint64) *FEPoly { return &FEPoly{q: q, terms: map[string]uint64{}} }
+func newFEPoly(q uint64) *FEPoly { return &FEPoly{q: q, terms: map[uint32]uint64{}} }
 
-func (p *FEPoly) addTerm(k string, c uint64) {
+// monomials are interned: id 0 is the empty monomial (constant term)
+var monoTab = struct {
+	mu   sync.RWMutex
+	ids  map[string]uint32
+	keys []string
+	prod map[uint64]uint32
+}{ids: map[string]uint32{"": 0}, keys: []string{""}, prod: map[uint64]uint32{}}
+
+func monoID(key string) uint32 {
+	monoTab.mu.RLock()
+	id, ok := monoTab.ids[key]
+	monoTab.mu.RUnlock()
+	if ok {
+		return id
+	}
+	monoTab.mu.Lock()
+	defer monoTab.mu.Unlock()
+	if id, ok := monoTab.ids[key]; ok {
+		return id
+	}
+	id = uint32(len(monoTab.keys))
+	monoTab.keys = append(monoTab.keys, key)
+	monoTab.ids[key] = id
+	return id
+}
+
+func monoStr(id uint32) string {
+	monoTab.mu.RLock()
+	defer monoTab.mu.RUnlock()
+	return monoTab.keys[id]
+}
+
+func monoMulID(a, b uint32) uint32 {
+	if a == 0 {
+		return b
+	}
+	if b == 0 {
+		return a
+	}
+	if a > b {
+		a, b = b, a
+	}
+	k := uint64(a)<<32 | uint64(b)
+	monoTab.mu.RLock()
+	id, ok := monoTab.prod[k]
+	monoTab.mu.RUnlock()
+	if ok {
+		return id
+	}
+	id = monoID(monoMul(monoStr(a), monoStr(b)))
+	monoTab.mu.Lock()
+	monoTab.prod[k] = id
+	monoTab.mu.Unlock()
+	return id
+}
+
+func (p *FEPoly) addTerm(k uint32, c uint64) {
 	c %= p.q
 	if c == 0 {
 		return
@@ -173,7 +259,7 @@ func (p *FEPoly) addTerm(k string, c uint64) {
 
 func feConst(q, c uint64) *FEPoly {
 	p := newFEPoly(q)
-	p.addTerm("", c%q)
+	p.addTerm(0, c%q)
 	return p
 }
 
@@ -206,7 +292,7 @@ func (p *FEPoly) mul(o *FEPoly) *FEPoly {
 	r := newFEPoly(p.q)
 	for k1, c1 := range p.terms {
 		for k2, c2 := range o.terms {
-			r.addTerm(monoMul(k1, k2), mulmod(c1, c2, p.q))
+			r.addTerm(monoMulID(k1, k2), mulmod(c1, c2, p.q))
 		}
 	}
 	return r
@@ -226,12 +312,12 @@ func (p *FEPoly) equal(o *FEPoly) bool {
 	return true
 }
 
-func (p *FEPoly) keys() []string {
-	ks := make([]string, 0, len(p.terms))
+func (p *FEPoly) keys() []uint32 {
+	ks := make([]uint32, 0, len(p.terms))
 	for k := range p.terms {
 		ks = append(ks, k)
 	}
-	sort.Strings(ks)
+	sort.Slice(ks, func(i, j int) bool { return monoStr(ks[i]) < monoStr(ks[j]) })
 	return ks
 }
 
@@ -244,7 +330,7 @@ func (x *Exec) polyString(p *FEPoly, max int) string {
 			break
 		}
 		var names []string
-		for _, id := range monoIDs(k) {
+		for _, id := range monoIDs(monoStr(k)) {
 			names = append(names, s.atoms[id].name)
 		}
 		m := strings.Join(names, "·")
@@ -269,7 +355,7 @@ func (x *Exec) dropClasses(p *FEPoly, classes ...int) *FEPoly {
 	r := newFEPoly(p.q)
 	for k, c := range p.terms {
 		keep := true
-		for _, id := range monoIDs(k) {
+		for _, id := range monoIDs(monoStr(k)) {
 			if drop[s.atoms[id].class] {
 				keep = false
 				break
@@ -294,7 +380,7 @@ func (x *Exec) newAtom(name string, class int, q uint64) *FE {
 		s.byName[full] = a
 	}
 	p := newFEPoly(q)
-	p.terms[monoKey([]int{a.id})] = 1
+	p.terms[monoID(monoKey([]int{a.id}))] = 1
 	return &FE{P: p, Lo: bigZero, Hi: new(big.Int).SetUint64(q - 1)}
 }
 
@@ -356,6 +442,14 @@ func (x *Exec) feBinop(op token.Token, a, b Value, t types.Type) Value {
 			lo = bigZero
 		}
 		return &FE{P: fa.P.add(fb.P.neg()), Lo: lo, Hi: hi}
+	case token.OR, token.XOR:
+		// selection idiom  a*(t^1) | b*t  with t in {0,1}: one side is exactly zero
+		if fa.Hi.Sign() == 0 {
+			return fb
+		}
+		if fb.Hi.Sign() == 0 {
+			return fa
+		}
 	case token.MUL:
 		lo, hi := new(big.Int).Mul(fa.Lo, fb.Lo), new(big.Int).Mul(fa.Hi, fb.Hi)
 		x.feRangeCheck(lo, hi, "multiplication")
@@ -527,7 +621,7 @@ func (x *Exec) feObligation(a, b *FEPoly, id, where string) {
 			st := x.feS()
 			m, ok := st.monoVars[k]
 			if !ok {
-				m = ts.Var("mono["+k+"]", SInt, 0)
+				m = ts.Var("mono["+monoStr(k)+"]", SInt, 0)
 				st.monoVars[k] = m
 			}
 			sum = ts.IBin(OIAdd, sum, ts.IBin(OIMul, ts.IntU(p.terms[k]), m))
@@ -609,7 +703,7 @@ func registerFEPrelude() {
 		for _, f := range x.sliceFEs(a[0], q) {
 			found := false
 			for k := range f.P.terms {
-				for _, id := range monoIDs(k) {
+				for _, id := range monoIDs(monoStr(k)) {
 					if s.atoms[id].class == class {
 						found = true
 					}
@@ -628,7 +722,7 @@ func registerFEPrelude() {
 		s := x.feS()
 		for _, f := range x.sliceFEs(a[0], q) {
 			for k := range f.P.terms {
-				for _, id := range monoIDs(k) {
+				for _, id := range monoIDs(monoStr(k)) {
 					if s.atoms[id].class == class {
 						return x.ts.False
 					}
